@@ -51,13 +51,81 @@ def ensure_deps(need_atheris: bool = False) -> None:
             importlib.invalidate_caches()
 
 
-def use_repo() -> str:
-    """Put the tree under test first on sys.path."""
+_IMPL = None
+
+
+def use_repo(impl: str | None = None) -> str:
+    """Put the tree under test first on sys.path and select the implementation configuration.
+
+    rebuilt (default): the compiled extensions are rebuilt from the tree's *current* .pyx sources
+             (cached by content hash under /verif/.build) and loaded instead of the in-tree .so,
+             so that an edit to a .pyx is visible to every check and a stale .so is never trusted;
+    pure:    the extensions are blocked -> documented pure-Python fallbacks;
+    tree:    whatever the tree imports by itself (in-tree .so if present).
+    """
+    global _IMPL
     if sys.path[0] != REPO:
         if REPO in sys.path:
             sys.path.remove(REPO)
         sys.path.insert(0, REPO)
+    if _IMPL is not None or "scriptplan" in sys.modules:
+        return REPO
+    impl = impl or os.environ.get("VERIF_IMPL", "rebuilt")
+    if impl == "rebuilt":
+        d = ensure_native_build()
+        if d:
+            force_rebuilt(d)
+        else:  # a .pyx that does not compile: the package falls back to pure Python
+            impl = "pure(build failed)"
+            force_pure()
+    elif impl == "pure":
+        force_pure()
+    _IMPL = impl
     return REPO
+
+
+def impl_name() -> str:
+    return _IMPL or "unset"
+
+
+def pyx_hash() -> str:
+    import hashlib
+
+    h = hashlib.sha256()
+    src = os.path.join(REPO, "scriptplan", "_cython")
+    for name in ("scoreboard_cy", "time_utils_cy", "working_hours_cy"):
+        try:
+            with open(os.path.join(src, name + ".pyx"), "rb") as f:
+                h.update(f.read())
+        except OSError:
+            h.update(b"missing")
+    h.update(sys.version.encode())
+    return h.hexdigest()[:16]
+
+
+def ensure_native_build() -> str | None:
+    """Return a directory holding extensions compiled from the current .pyx files (or None)."""
+    import fcntl
+
+    root = os.path.join(VERIF, ".build")
+    os.makedirs(root, exist_ok=True)
+    d = os.path.join(root, pyx_hash())
+    ok_marker = os.path.join(d, "OK")
+    fail_marker = os.path.join(d, "FAILED")
+    if os.path.exists(ok_marker):
+        return d
+    if os.path.exists(fail_marker):
+        return None
+    with open(os.path.join(root, ".lock"), "w") as lk:
+        fcntl.flock(lk, fcntl.LOCK_EX)
+        if os.path.exists(ok_marker):
+            return d
+        if os.path.exists(fail_marker):
+            return None
+        ok, log = rebuild_native(d)
+        with open(ok_marker if ok else fail_marker, "w") as f:
+            f.write(log)
+    return d if ok else None
 
 
 class _BlockNative(importlib.abc.MetaPathFinder):
